@@ -49,6 +49,25 @@ pub fn run_c08<A: Cx>(d: &mut Drv<A>, scale: usize, all: bool) {
                 for extra in [16usize, 32, 64, 128, 256, 1024] {
                     d.emit(json!({"op": "kfrom", "kd": 3, "src": sl(3, 1, 1 + k + extra), "k": k, "st": st, "via": "slice"}));
                 }
+                // texts of K CHARACTERS that are not K bytes: a character beyond Latin-1 whose low byte is a
+                // symbol character (U+0141 -> 'A', U+0143 -> 'C', ...), a Latin-1 character, a 4-byte one
+                {
+                    let good = d.rand_text(k);
+                    for (pos, ch) in [(0usize, '\u{141}'), (k - 1, '\u{143}'), (k / 2, '\u{e9}'), (0, '\u{1F9EC}'), (k - 1, '\u{4E2D}')] {
+                        let mut t: Vec<u8> = Vec::new();
+                        for (i, &b) in good.iter().enumerate() {
+                            if i == pos {
+                                let mut buf = [0u8; 4];
+                                t.extend_from_slice(ch.encode_utf8(&mut buf).as_bytes());
+                            } else {
+                                t.push(b);
+                            }
+                        }
+                        if good.iter().all(|b| b.is_ascii()) {
+                            d.emit(json!({"op": "kparse", "kd": 3, "c": A::NAME, "k": k, "st": st, "bytes": t}));
+                        }
+                    }
+                }
                 let mut lt = d.rand_text(k + 256);
                 d.emit(json!({"op": "kparse", "kd": 3, "c": A::NAME, "k": k, "st": st, "bytes": lt}));
                 lt.truncate(k + 64);
